@@ -1,6 +1,9 @@
-"""C22: no datagram can crash the NTP server.  Model: coq/Model/Server.v with explicit panic sites; theorems:
+"""C22: no datagram can crash the NTP server.  Models: coq/Model/Server.v (decision structure, explicit panic
+sites), coq/Model/ServerBytes.v (byte-level decoder of Model/Packet.v ; summary ; decision); theorems:
 coq/Props/C22.v; tie: Server::handle on malformed / truncated / bit-flipped / length-lying datagrams and on
-environments that do trigger the modelled panic sites (harness/ntp-proto/c22.rs)."""
+environments that do trigger the modelled panic sites (harness/ntp-proto/c22.rs); for the datagrams whose bytes
+the driver knows, the decoder summary is recomputed from the bytes by the Coq decoder and compared with what
+the real NtpPacket::deserialize reported."""
 from tools import vplib
 from tools.props import p2a_common as P
 
@@ -13,6 +16,33 @@ def open_cfg(rng):
         cfg["deny"], cfg["allow"] = [], ["0.0.0.0/0", "::/0"]
     cfg["accepted"] = rng.choice(["345", "345", "345", "34", "5"])
     return cfg
+
+
+def nts_shaped(rng):
+    """a datagram built byte by byte that LOOKS like an NTS request: unique identifier, (mostly) a cookie field of random
+    bytes, (v5) the draft identification, and a structurally well-formed NTS authenticator field.  No key of the server
+    is involved, so the authenticator cannot verify: the decoder's answer is a decrypt error (v4/v5) - the outcome class the
+    other raw streams hardly ever reach - or, with a version-3 header, whatever the MAC rules say"""
+    v = rng.choice([4, 4, 5, 5, 3])
+    hdr = bytearray(rng.randrange(256) for _ in range(48))
+    hdr[0] = (rng.randrange(4) << 6) | (v << 3) | rng.choice([3, 3, 3, 3, 4, 1])
+    if v == 5:
+        hdr[12], hdr[14], hdr[15] = 0, 0, rng.choice([0, 1, 2])
+
+    def rnd(n):
+        return bytes(rng.randrange(256) for _ in range(n))
+
+    def ef(t, body):
+        ln = 4 + len(body)
+        return bytes([t >> 8, t & 255, ln >> 8, ln & 255]) + body
+    out = bytes(hdr) + ef(0x0104, rnd(32))
+    if rng.random() < 0.7:
+        out += ef(0x0204, rnd(rng.choice([100, 104, 136, 40, 20])))
+    if v == 5 and rng.random() < 0.7:
+        out += ef(0xF5FF, P.DRAFT + b"\x00" * ((4 - len(P.DRAFT) % 4) % 4))
+    nl, cl = rng.choice([16, 16, 16, 12, 0, 32]), rng.choice([16, 32, 48, 20])
+    body = bytes([nl >> 8, nl & 255, cl >> 8, cl & 255]) + rnd(nl) + b"\x00" * ((4 - nl % 4) % 4) + rnd(cl) + b"\x00" * ((4 - cl % 4) % 4)
+    return out + ef(0x0404, body)
 
 
 def malformed(rng, quick):
@@ -47,6 +77,9 @@ def malformed(rng, quick):
     for _ in range(300 if quick else 2500):
         one("raw:" + P.raw_packet(rng, mode=rng.choice([3, 3, 3, 4, 0, 7])).hex(), P.gen_mutations(rng, 120) if rng.random() < 0.4 else [],
             buf=rng.choice(["=", "=", 1024, 0, 4, 48]))
+    # NTS-shaped datagrams built byte by byte (decrypt-error class from bytes the driver knows)
+    for _ in range(80 if quick else 800):
+        one("raw:" + nts_shaped(rng).hex(), P.gen_mutations(rng, 150) if rng.random() < 0.3 else [], buf=rng.choice(["=", "=", 1024]))
     return res
 
 
@@ -68,6 +101,64 @@ def environment(rng, quick):
     return res
 
 
+def raw_bytes(o):
+    """the datagram of an op whose bytes the driver knows (raw:<hex> base): the mutations of
+    harness/ntp-proto/p2a_common.rs build_request, re-applied here; None for the bases built in Rust"""
+    if not o["base"].startswith("raw:"):
+        return None
+    h = o["base"][4:]
+    b = bytearray() if h == "-" else bytearray.fromhex(h)
+    for m in o["muts"]:
+        op, arg = m[0], m[1:]
+        if op in "xs":
+            i, v = arg.split(":")
+            i, v = int(i), int(v, 16)
+            if i < len(b):
+                b[i] = (b[i] ^ v) if op == "x" else v
+        elif op == "t":
+            del b[int(arg):]
+        elif op == "a":
+            b += bytes.fromhex(arg)
+        else:
+            return None
+    return bytes(b)
+
+
+PREAMBLE = ("From V Require Import Model.Server Model.ServerBytes.\n"
+            "Definition sc_in (c a : list Z) (t : list (Z * Z)) (o : list (list Z)) := (c, a, t, o).\n"
+            "Definition sc_inb (i : list Z * list Z * list (Z * Z) * list (list Z)) (r : list (option (list Z))) := (i, r).\n"
+            "Definition sc_out (x : list (list Z)) := x.\n")
+CHECKER = "mismatches zll_eqb scenario_run_bytes"
+BYTES_STATS = {"summaries_recomputed_from_bytes": 0, "of_which_decoded_a_packet": 0, "of_which_decrypt_error": 0,
+               "bytes_not_known_to_driver": 0, "length_or_first_byte_disagrees": 0}
+
+
+def wrap_terms(sc, ops_out, terms):
+    """model input/output of Model.ServerBytes.scenario_run_bytes: the scenario of Model.Server.scenario_run plus,
+    per datagram, the bytes (when the driver knows them); expected: the implementation's outputs followed by the
+    decoder summaries the harness read off the real NtpPacket::deserialize"""
+    inp, out = terms
+    z = vplib.zlit
+    if ops_out is None:
+        return "(sc_inb %s [])" % inp, out
+    raws, sums = [], []
+    for o, d in zip(sc["ops"], ops_out):
+        b = raw_bytes(o)
+        if b is not None and (len(b) != d["len"] or (b[0] if b else -1) != d["b0"]):
+            BYTES_STATS["length_or_first_byte_disagrees"] += 1
+            b = None
+        if b is None:
+            BYTES_STATS["bytes_not_known_to_driver"] += 1
+            raws.append("None")
+        else:
+            BYTES_STATS["summaries_recomputed_from_bytes"] += 1
+            BYTES_STATS["of_which_decoded_a_packet"] += 1 if d["parse"] != 2 else 0
+            BYTES_STATS["of_which_decrypt_error"] += 1 if d["parse"] == 1 else 0
+            raws.append("(Some %s)" % vplib.coq_list([z(x) for x in b]))
+        sums.append(vplib.coq_list([z(d["fbv"]), z(d["parse"]), z(d["ver"]), z(d["client"]), z(d["cookie"])]))
+    return "(sc_inb %s %s)" % (inp, vplib.coq_list(raws)), "(sc_out (%s ++ %s))" % (out, vplib.coq_list(sums))
+
+
 def main():
     c = vplib.Check("C22")
     c.run_gate()
@@ -82,18 +173,28 @@ def main():
     rp = P.replay_tokens()
     if rp is not None:
         scenarios = [P.scenario_of_line(rp)] if rp and rp[0] == "srv" else []
-    outs, stats = P.run_scenarios(c, scenarios, P.monitor_c22, compare_c15_class=True)
+    outs, stats = P.run_scenarios(c, scenarios, P.monitor_c22, compare_c15_class=True, preamble=PREAMBLE, checker=CHECKER,
+                                  wrap_terms=wrap_terms)
     stats["environment_scenarios"] = len(env)
+    stats["decoder_summary_from_bytes"] = dict(BYTES_STATS)
     c.cov["distribution"] = stats
     c.cov["rule"] = ("Server::handle on: truncations (every header offset, sampled/all later offsets), single-bit flips, extension-field length "
                      "lies of 14 request shapes (plain v3/v4/v5, NTS v4/v5 with 1-8 cookies and both AEADs, foreign-cookie, wrong-key), arbitrary "
-                     "byte strings of 0-1500 bytes, grammar-built packets with assorted/lying extension fields and MAC-like tails; random "
+                     "byte strings of 0-1500 bytes, grammar-built packets with assorted/lying extension fields and MAC-like tails, byte-built "
+                     "NTS-shaped requests (cookie field of random bytes + well-formed authenticator field: decrypt errors); random "
                      "configurations and buffer sizes; plus %d environment scenarios (unreadable clock, negative published root delay) where "
-                     "the modelled panic sites must fire exactly as modelled.  Compared: panic/no panic, answer kind, registrations.  "
-                     "Non-trivial: decoder returned a packet" % len(env))
+                     "the modelled panic sites must fire exactly as modelled.  Compared: panic/no panic, answer kind, registrations, and for "
+                     "every datagram given as raw bytes (arbitrary strings, grammar-built packets, their mutations) the decoder summary "
+                     "(fallback version, outcome class, version, client mode, cookie) computed by Model/ServerBytes.v from the bytes "
+                     "against the real decoder's.  Non-trivial: decoder returned a packet" % len(env))
     c.assumptions += P.COMMON_ASSUMPTIONS + [
-        "panic sites of the decoder and of the serialiser are not in this model (C23 / C16-C19); here they are only exercised: any panic of "
-        "Server::handle on a generated datagram with a healthy environment is a violation",
+        "panic sites of the answer builders/serialiser other than the environment-triggered ones are not in the composed model "
+        "(Model/ServerBytes.v: decoder ; summary ; decision); they are only exercised: any panic of Server::handle on a generated "
+        "datagram with a healthy environment is a violation",
+        "the summary function of Model/ServerBytes.v is compared with the real decoder only on datagrams given as raw bytes, decoded "
+        "in Coq with the always-failing decryption oracle (none of them carries material encrypted under a server key); for the "
+        "NTS requests built in Rust (valid/foreign cookie, wrong key) the bytes are not known to the driver and the summary "
+        "function is trusted there (it is five projections of the decoded packet)",
         "sites 2002 (poisoned lock) and 2006 (key set with primary >= |keys|, C27) are modelled but not driven by the harness",
         "a panicking scenario is compared with the model only when it is a single clean request (its decoder summary is known by construction)",
     ]
@@ -102,7 +203,7 @@ def main():
 
 MANIFEST = {
     "claimed": True,
-    "text": "PARTIAL. Theorems (Coq, closed) about the decision model of Server::handle with its panic sites explicit (cache indexing, lock unwrap, unreachable!() of the Ignore arm, 'NTS shouldn't work with NTPv3', clock expect, keys[primary]/encrypt expect, assert!(root_delay >= 0)): for every address, configuration, cache state, hash function, buffer outcome and every decoder summary the decoder can produce, with a healthy environment (lock not poisoned, clock readable, key set usable, published root delay >= 0) handle returns normally, also over any history (C22_total_partial, C22_history_total_partial); any panic of the model is one of the four environment sites under the negation of its hypothesis or the NTPv3 site under a summary the decoder never produces; cache indexing and the unreachable!() are never reached (C22_panic_sites, C22_cache_total). Missing for the full statement: totality of NtpPacket::deserialize (C23) and of the answer builders/serialiser, which are inputs here. Tie: the real Server::handle on truncations at every offset, bit flips, length-field lies, arbitrary byte strings up to 1500 bytes and grammar-built packets (no panic allowed, outcome must match the model), plus environments that do fire the modelled sites (unreadable clock, negative root delay), where implementation and model must panic alike.",
-    "note": "Trusted: Coq kernel+vm_compute; hand-written model coq/Model/Server.v and its list of panic sites, cross-checked by the census C22_site_census (counts of unwrap/expect/unreachable!/assert!/indexing regenerated from the sources on every run). Sites 2002 (poisoned lock) and 2006 (key set with primary >= |keys|, C27's defect) are modelled but not driven; 2006 is over-approximated (panics for every NTS time answer with an unusable key set). env_ok's root_delay >= 0 is an invariant of the controller's snapshots (C01/C06 builders), assumed here. Memory safety and aes-siv internals are outside the model (#![forbid(unsafe_code)] in ntp-proto). Debug-only assertions are not release panics. Print Assumptions: closed under the global context for all four theorems.",
+    "text": "PARTIAL (the answer construction stays outside). Theorems (Coq, closed). (a) From the bytes: handle_bytes (coq/Model/ServerBytes.v) = the byte-level model of NtpPacket::deserialize with the server's key set (coq/Model/Packet.v, every decoder panic site explicit, AEAD decryption an arbitrary oracle) ; the summary handle_inner reads off the result ; the decision model of Server::handle (coq/Model/Server.v, panic sites explicit: cache indexing, lock unwrap, unreachable!() of the Ignore arm, 'NTS shouldn't work with NTPv3', clock expect, keys[primary]/encrypt expect, assert!(root_delay >= 0)). For EVERY byte string, every decryption oracle, every key set, address, configuration, cache state, hash function and buffer outcome, with a healthy environment (lock not poisoned, clock readable, key set usable, published root delay >= 0), handle_bytes returns normally, also over any history of datagrams (C22_total_decode_and_decide_partial, C22_no_panic_decode_and_decide_partial, C22_history_decode_and_decide_partial); any panic of handle_bytes is one of the four environment sites under the negation of its hypothesis - no decoder site, not the cache index, not the unreachable!(), not the NTPv3 site (C22_panic_sites_bytes); the former hypothesis 'the summary is one the decoder can produce' is now proved of the decoder (C22_decoder_v3: a decoded NTPv3 packet never carries a cookie or a failed authenticator). (b) The older theorems over arbitrary summaries are kept (C22_total_partial, C22_history_total_partial, C22_panic_sites, C22_cache_total). (c) Answer construction: C22_answer_sites_partial - over P2b's model of the response builders and NtpPacket::serialize on parsed requests (coq/Model/Response.v), the five panic sites that model makes explicit (two field-encoder assertions, three 'NTS shouldn't work with NTPv3') are unreachable for every request the decoder can report, every reachable intended action, every buffer. Missing for the full statement: totality of the real answer builders/serialiser beyond those sites (slice arithmetic of encode_encrypted, Cipher::encrypt, Cursor), and the composition of (c) with (a); in (a) the answer construction is an input ('the built answer fits the buffer or not'). Tie: the real Server::handle on truncations at every offset, bit flips, length-field lies, arbitrary byte strings up to 1500 bytes and grammar-built packets (no panic allowed, outcome must match the model), plus environments that do fire the modelled sites (unreadable clock, negative root delay), where implementation and model must panic alike; for every datagram given as raw bytes the Coq decoder+summary of the same bytes must equal the summary of the real decoder.",
+    "note": "Trusted: Coq kernel+vm_compute; hand-written models coq/Model/Server.v (decision structure and its list of panic sites, cross-checked by the census C22_site_census: counts of unwrap/expect/unreachable!/assert!/indexing regenerated from the sources on every run), coq/Model/Packet.v+ExtField.v+Bytes.v (P1's decoder model, tied by C23's correspondence and census), coq/Model/Response.v (P2b's, tied by C16-C19), and the new summary function of coq/Model/ServerBytes.v (five projections of the decoded packet: compared with the real decoder on raw-byte datagrams only, with the always-failing oracle; trusted for NTS requests that authenticate). handle_bytes decodes before intended_action (the code decodes only when the action is not Ignore): an over-approximation of the panics. The answer construction is not composed: e_ser_ok/e_buf_ge4 are inputs of handle_bytes, so it is assumed to return (Ok or error); Model/Response.v is not panic-site complete (no slicing/copy_within/cipher/cursor sites) and works on a different abstraction of the decoded packet than Model/Packet.v, so C22_answer_sites_partial is a separate statement over parsed requests with the decoder's NTPv3 guarantee as hypothesis (proved at byte level as C22_decoder_v3) and the state hypothesis |reference-id filter| <= 65535 (it is 512). Sites 2002 (poisoned lock) and 2006 (key set with primary >= |keys|, C27's defect) are modelled but not driven; 2006 is over-approximated (panics for every NTS time answer with an unusable key set). env_ok's root_delay >= 0 is an invariant of the controller's snapshots (C01/C06 builders), assumed here. Hypotheses wf_bytes (every element of the datagram is a byte) and oracle_wf (decryption returns byte strings) are typing conditions of the Z-list encoding. Memory safety and aes-siv internals are outside the model (#![forbid(unsafe_code)] in ntp-proto). Debug-only assertions are not release panics. Print Assumptions: closed under the global context for all ten theorems.",
     "design_ref": "DESIGN.md 3 C22",
 }
